@@ -99,12 +99,15 @@ func runBatch(c *fw.Ctx, tier string, b int, shapes []*prog.Shape, keep bool) ([
 		BuildP:     3,
 		Timeout:    15 * time.Minute,
 		Keep:       keep,
-		GoCache:    os.Getenv("VERIF_SCRATCH_GOCACHE"),
+		GoCache:    scratchCache(),
 	}
 	return prog.RunBatch(cfg, progs)
 }
 
 func run(c *fw.Ctx) {
+	if c.Thorough() {
+		cacheShard = c.Shard // worker-private scratch cache, trimmed between batches
+	}
 	shapes := programs(c.Thorough())
 	const batchSize = 130
 	nb := (len(shapes) + batchSize - 1) / batchSize
@@ -122,6 +125,9 @@ func run(c *fw.Ctx) {
 		lo, hi := b*batchSize, (b+1)*batchSize
 		if hi > len(shapes) {
 			hi = len(shapes)
+		}
+		if c.Thorough() {
+			prog.TrimCache(scratchCache(), 3<<30)
 		}
 		results, err := runBatch(c, c.Tier, b, shapes[lo:hi], false)
 		if err != nil {
@@ -184,6 +190,19 @@ func replay(c *fw.Ctx, kind string, data json.RawMessage) string {
 		return fmt.Sprintf("struct shape %s fails differently now: %v", pc.Sig, got)
 	}
 	return ""
+}
+
+// scratchCache is the build cache for the generated programs: the persistent
+// shared one in the quick tier (set by vrun), a worker-private directory under
+// the run's scratch cache in the thorough tier (trimmed between batches).
+var cacheShard = -1
+
+func scratchCache() string {
+	base := os.Getenv("VERIF_SCRATCH_GOCACHE")
+	if base == "" || cacheShard < 0 {
+		return base
+	}
+	return filepath.Join(base, fmt.Sprintf("w%d", cacheShard))
 }
 
 // Main runs the check.
